@@ -50,6 +50,11 @@ Theorem c07_files_final_agree : C07_files_final_agree.
 Proof. exact c07_files_final_agree_proof. Qed.
 Print Assumptions c07_files_final_agree.
 
+(* ... and so does files_on_hub (the extra hypothesis of the target-cursor theorem) *)
+Theorem c07_files_final_on_hub : C07_files_final_on_hub.
+Proof. exact c07_files_final_on_hub_proof. Qed.
+Print Assumptions c07_files_final_on_hub.
+
 (* ---- non-vacuity ---- *)
 
 (* linear chain 2..20, block n declares n-2 final, plus a sibling 116 of block 16; the hub bootstrapped from
